@@ -148,6 +148,14 @@ def run(tier):
                 for h in hists:
                     scripts.append(base + " " + " ".join(h + ["e:0:1", "e:1:0", "h:0", "h:1", "e:0:1", "e:1:0"]))
                     expects.append(("pair", eq, len(h), (a, b)))
+        # membership and lookup must give the answer equality gives (a container holding a, probed with w)
+        for v in pool:
+            for w, eq in variants(rng, v, cfg):
+                a = G.render(rng, v, cfg, rich=False)
+                b = G.render(rng, w, cfg, rich=False)
+                scripts.append("Q r0=%s r1=%s r2=%s r3=%s e:0:1 sc:2:1 ck:3:1 h:2 sc:2:1 ck:3:1" % (
+                    C.hexs(a), C.hexs(b), C.hexs(b"#{" + a + b" :other}"), C.hexs(b"{" + a + b" 1 :other 2}")))
+                expects.append(("member", eq, 0, (a, b)))
         # exhaustive histories (up to 4 preceding calls over 6 operations) on a few pairs
         few = [(("list", [("int", 1), ("int", 2)]), ("vec", [("int", 1), ("int", 2)])),
                (("float", "0.0"), ("float", "-0.0")),
@@ -199,6 +207,16 @@ def run(tier):
                 continue
             toks = out.split("\t")
             kind, eq, nh, what = exp
+            if kind == "member":
+                if toks[:4] != ["ok", "ok", "ok", "ok"]:
+                    continue
+                e01, sc1, ck1, _h, sc2, ck2 = toks[4:10]
+                want = "1" if eq else "0"
+                if not (e01 == sc1 == ck1 == sc2 == ck2 == want):
+                    found = True
+                    rep.finding("algebra/membership-disagrees", "equal=%s set-contains=%s/%s contains-key=%s/%s, expected %s" % (e01, sc1, sc2, ck1, ck2, want),
+                                {"kind": "script", "config": cfg, "line": scripts[i], "observed": out, "a": what[0].decode("latin-1"), "b": what[1].decode("latin-1")})
+                continue
             if kind == "pair":
                 if not (toks[0] == "ok" and toks[1] == "ok"):
                     continue  # one of the documents was not accepted (e.g. nesting limit)
